@@ -139,10 +139,15 @@ Proof.
   - cbn [safe] in Hs. apply andb_true_iff in Hs as [Hg Ha]. destruct (single_atom_inv _ Ha) as (a & Hd).
     specialize (IH Hg). rewrite Hd in *. cbn [not_flat]. rewrite ev_flat_single, ev_conj_single in *.
     unfold tv in *. cbn [eval_sql]. now rewrite truth_of3, IH.
-  - destruct all.
-    + rewrite ev_flat_single. unfold ev_conj. rewrite map_map. f_equal.
-      apply map_ext. intros v. apply tv_pos.
-    + unfold ev_flat. rewrite map_map. f_equal. apply map_ext. intros v. rewrite ev_conj_single. apply tv_pos.
+  - assert (Hd : ev_flat r (if all then [List.map (pos_gt0 c) vs] else List.map (fun v => [pos_gt0 c v]) vs)
+                 = if all then fold_right and3 (Some true) (List.map (has3 (col r c)) vs)
+                   else fold_right or3 (Some false) (List.map (has3 (col r c)) vs)).
+    { destruct all.
+      + rewrite ev_flat_single. unfold ev_conj. rewrite map_map. f_equal.
+        apply map_ext. intros v. apply tv_pos.
+      + unfold ev_flat. rewrite map_map. f_equal. apply map_ext. intros v. rewrite ev_conj_single. apply tv_pos. }
+    destruct (Nat.leb 2 (length vs)); [|exact Hd].
+    rewrite ev_flat_single, ev_conj_single, tv_flat. exact Hd.
 Qed.
 
 Lemma join_and_nil : forall d, join_and d [] = d.
@@ -191,10 +196,43 @@ Qed.
 Definition bad_filter : filter :=
   FAnd [FCmp CEq (OCol (s2l "a")) (OInt 1); FHas false (s2l "foo") [s2l "x"; s2l "y"]].
 Definition bad_row : trow := [(s2l "id", VInt 7); (s2l "a", VInt 2); (s2l "foo", VText (s2l "zzy"))].
-Lemma meaning_refuted :
-  selects bad_row bad_filter = false /\ sql_selects bad_row (where_ast [bad_filter]) = true /\
+Lemma meaning_old_refuted :
+  wf bad_filter = true /\
+  selects bad_row bad_filter = false /\ sql_selects bad_row (where_ast_old [bad_filter]) = true /\
+  parse_where (sql_lex (fst (gen_where_old [bad_filter]))) = Some (where_ast_old [bad_filter]) /\
+  sql_selects bad_row (where_ast [bad_filter]) = false /\
   parse_where (sql_lex (fst (gen_where [bad_filter]))) = Some (where_ast [bad_filter]).
 Proof. vm_compute. repeat split. Qed.
+
+(* ---------------------------------------------------------------- with the repaired generator every well formed filter is safe *)
+Lemma single_atom_conj d : single_atom d = true -> single_conj d = true.
+Proof. intros H. destruct (single_atom_inv d H) as (a & ->). reflexivity. Qed.
+
+Lemma wf_safe : forall f, wf f = true -> safe f = true /\ single_atom (flat_of f) = true.
+Proof.
+  induction f as [o a b|c|l IH|l IH|g IH|all c vs] using filter_ind'; intros Hw; cbn [wf safe] in *; try (split; reflexivity).
+  - apply andb_true_iff in Hw as [Hall Hlen]. split; [|reflexivity]. rewrite Hlen, andb_true_r.
+    rewrite forallb_forall in *. rewrite Forall_forall in IH. intros x Hx. destruct (IH x Hx (Hall x Hx)) as [H1 H2].
+    now rewrite H1, (single_atom_conj _ H2).
+  - apply andb_true_iff in Hw as [Hall Hlen]. split; [|reflexivity]. rewrite Hlen, andb_true_r.
+    rewrite forallb_forall in *. rewrite Forall_forall in IH. intros x Hx. apply (IH x Hx (Hall x Hx)).
+  - destruct (IH Hw) as [H1 H2]. rewrite H1, H2. split; [reflexivity|].
+    destruct (single_atom_inv _ H2) as (a & Ha). cbn [flat_of]. rewrite Ha. reflexivity.
+  - split; [exact Hw|]. cbn [flat_of]. destruct vs as [|v [|v2 vs]]; [discriminate| |reflexivity]. destruct all; reflexivity.
+Qed.
+
+Lemma wf_safe_where fs : fs <> [] -> forallb wf fs = true -> safe_where fs = true.
+Proof.
+  intros Hne Hw. unfold safe_where. destruct fs as [|g [|g2 l]]; [congruence| |].
+  - cbn [forallb] in Hw. apply andb_true_iff in Hw as [Hg _]. apply (wf_safe g Hg).
+  - rewrite forallb_forall in *. intros x Hx. destruct (wf_safe x (Hw x Hx)) as [H1 H2]. now rewrite H1, (single_atom_conj _ H2).
+Qed.
+
+Lemma filter_meaning fs r : fs <> [] -> forallb wf fs = true ->
+  truth (eval_sql r (where_ast fs)) = fold_right and3 (Some true) (List.map (eval_filter r) fs).
+Proof. intros Hne Hw. exact (where_meaning r fs (wf_safe_where fs Hne Hw)). Qed.
+Lemma filter_rows fs r : fs <> [] -> forallb wf fs = true -> sql_selects r (where_ast fs) = forallb (selects r) fs.
+Proof. intros Hne Hw. exact (where_selects r fs (wf_safe_where fs Hne Hw)). Qed.
 
 (* ---------------------------------------------------------------- the text of gen_filter is confined *)
 Definition operand_ok (a : operand) : Prop := match a with OCol c => no_nul c | OStr s => no_nul s | OInt _ => True end.
@@ -246,8 +284,14 @@ Proof.
     + cbn [ojoin]. apply Lex0_app; [apply Lex0_onil|apply Lex0_rp].
     + apply Seg_Lex0_app; [exact HS| |apply Lex0_rp]. reflexivity.
   - apply Lex0_Seg_app; [lex0_fixed|]. apply Lex0_Seg_app; [apply Lex0_space|apply IH, Hok].
-  - destruct Hok as [Hc Hvs]. apply ojoin_seg; [destruct all; lex0_fixed|destruct all; reflexivity|].
-    apply Forall_map. eapply Forall_impl; [|exact Hvs]. intros v Hv. apply Seg_pos; assumption.
+  - destruct Hok as [Hc Hvs].
+    assert (HB : Seg (ojoin (if all then fx " AND " [Wd "AND"] else fx " OR " [Wd "OR"]) (List.map (gen_pos c) vs))).
+    { apply ojoin_seg; [destruct all; lex0_fixed|destruct all; reflexivity|].
+      apply Forall_map. eapply Forall_impl; [|exact Hvs]. intros v Hv. apply Seg_pos; assumption. }
+    destruct (Nat.leb 2 (length vs)); [|exact HB].
+    apply Lex0_Seg_app; [apply Lex0_lp|]. apply Lex0_Seg.
+    destruct vs as [|v vs]; [cbn [List.map ojoin]; apply Lex0_app; [apply Lex0_onil|apply Lex0_rp]|].
+    apply Seg_Lex0_app; [exact HB| |apply Lex0_rp]. reflexivity.
 Qed.
 
 Lemma gen_where_confined fs : Forall filter_ok fs -> sql_lex (fst (gen_where fs)) = snd (gen_where fs).
